@@ -307,6 +307,12 @@ def build_harness():
         env = {'CARGO_NET_OFFLINE': 'true', 'RUSTFLAGS': '--cfg ' + GUARD, 'CARGO_TARGET_DIR': os.path.join(WORK, 'target')}
         # the lock file is /repo's: the harness resolves to exactly the repository's dependency versions
         rc, out = sh(['cargo', 'build', '--offline', '--quiet'], cwd=HARNESS, env=env, timeout=3000)
+    if rc != 0:
+        # keep the error blocks, not the warnings, in what a replay file shows
+        blocks = re.split(r'\n(?=warning|error)', out)
+        errs = [b for b in blocks if b.startswith('error')]
+        if errs:
+            out = '\n'.join(errs)
     return rc == 0, out
 
 
